@@ -94,6 +94,21 @@ def check_vector(v):
     # clip: entries whose stop sticks out of the contig
     stick = v["clipin"]
     cmp("clip", v["clip"], lambda: _rows(g.get_intervals(table(stick), stranded=True).clip().get_data(), names))
+    # the coordinates on the concatenated genome (GlobalOffset; spec/Genome.tla: ToGlobal / ToLocal): an entry lands at the offset of its own
+    # contig; with do_clip the part sticking out of the contig is cut off BEFORE the offset is added (it never reaches the next contig);
+    # the way back gives the entries again, and the argument keeps its stops
+    from bionumpy.genomic_data.global_offset import GlobalOffset
+    go = GlobalOffset(dict(sizes))
+    off = v["offsets"]
+    cmp("GlobalOffset.from_local_interval", [[off[e["c"] - 1] + e["s"], off[e["c"] - 1] + e["e"]] for e in es],
+        lambda: (lambda t_: [[int(a_), int(b_)] for a_, b_ in zip(t_.start.tolist(), t_.stop.tolist())])(go.from_local_interval(table(es))))
+    cmp("GlobalOffset.to_local_interval", [{"c": e["c"], "s": e["s"], "e": e["e"]} for e in es], lambda: _rows(go.to_local_interval(go.from_local_interval(table(es))), names))
+
+    def clipped_global():
+        arg = table(stick)
+        t_ = go.from_local_interval(arg, do_clip=True)
+        return [[int(a_), int(b_)] for a_, b_ in zip(t_.start.tolist(), t_.stop.tolist())], [int(x) for x in arg.stop.tolist()]
+    cmp("GlobalOffset.from_local_interval[do_clip]", ([[off[r["c"] - 1] + r["s"], off[r["c"] - 1] + r["e"]] for r in v["clip"]], [e["e"] for e in stick]), clipped_global)
     # windows around the start locations
     loc = g.get_locations(LocationEntry([names[e["c"] - 1] for e in es], np.array([e["s"] for e in es], dtype=int)))
     for f in (0, 1):
